@@ -376,6 +376,12 @@ TRUNC = {'none': dict(chi_max=100, svd_min=1e-14), 'default': dict(), 'chi2': di
          'svd_min': dict(chi_max=100, svd_min=0.1), 'trunc_cut': dict(chi_max=100, trunc_cut=0.15)}
 
 
+# The zip-up sweep truncates tensors which are not in canonical form, so its discarded weights do not bound the error
+# of the state rigorously: on the unchanged library (1 - fidelity) / eps reaches 38 over the enumerated cases
+# (m_temp = 1 and 2, chi_max = 2 and 3, seeds 0, 1, 2, 7).  What is demanded: the error is reported at all.
+ZIP_UP_SLACK = 200.
+
+
 def check_apply(case):
     """Apply an MPO to a finite MPS by one method / truncation setting; compare with the dense matrix-vector product."""
     rec = Rec()
@@ -392,6 +398,8 @@ def check_apply(case):
         return rec  # (the operator annihilates the state: the normalised result is undefined)
     form = name.split(':')[-1]
     key = 'apply:%s%s' % (method, ':trunc_params-without-chi_max' if tname == 'default' else '' if form in ('B', 'product') else ':psi.form=' + form)
+    if 'm_temp' in case.get('options', {}):
+        key += ':m_temp=%d' % case['options']['m_temp']
     if method == 'naive':
         if rec.ok('apply_naively', H.apply_naively, psi):
             if not close(D.mps_dense(psi, form=None), v, 1e-9):
@@ -405,6 +413,8 @@ def check_apply(case):
             warnings.simplefilter('ignore')
             err = H.apply(psi, options)
     except Exception as e:  # noqa: BLE001
+        if method == 'zip_up' and options.get('m_temp') == 1 and 'no singular values' in str(e):
+            return rec  # (the sweep truncated to m_temp * chi_max = chi_max can discard the whole intermediate state)
         return rec + [('%s:exception:%s' % (key, type(e).__name__), 'apply(%r) on %s raised %s: %s' % (options, name, type(e).__name__, e))]
     phi = D.mps_dense(psi)
     if not np.all(np.isfinite(phi)) or not np.isfinite(err.eps):
@@ -425,6 +435,8 @@ def check_apply(case):
             rec(key + ':ov-not-a-lower-bound', '%s, %s: fidelity %.6g below the reported ov=%.6g' % (name, tname, fid, err.ov))
         if err.eps < 1e-20 and not close(phi, v, 1e-8):
             rec(key + ':eps=0:not-exact', '%s, %s: reported eps=0 but the state differs from the dense O|psi>' % (name, tname))
+    if method == 'zip_up' and 1 - fid > ZIP_UP_SLACK * err.eps + 1e-9:
+        rec(key + ':error-under-reported', '%s, %s: 1-fidelity=%.6g is more than %g times the reported eps=%.6g' % (name, tname, 1 - fid, ZIP_UP_SLACK, err.eps))
     return rec
 
 
